@@ -24,6 +24,22 @@ fn gen_px(rng: &mut Rng, kind: u64, idx: u64) -> [f32; 3] {
         2 => {
             if idx % 32 == 2 {
                 crate::gen::related_px(rng, if idx % 64 == 2 { 1.0 } else { 4.0 })
+            } else if idx % 32 == 10 {
+                // two cone responses (nearly or exactly) equal: blue solved from red and green on the plane where
+                // rows i and j of the opsin matrix agree, then moved by a few ulps
+                let (r, g) = (rng.unit(), rng.unit());
+                let (i, j) = [(0usize, 2usize), (1, 2), (0, 1)][rng.below(3) as usize];
+                let d = [OPSIN[i][0] - OPSIN[j][0], OPSIN[i][1] - OPSIN[j][1], OPSIN[i][2] - OPSIN[j][2]];
+                if d[2].abs() < 1e-9 {
+                    [r as f32, r as f32, rng.unit() as f32] // L == M exactly when r == g
+                } else {
+                    let b = -(d[0] * r + d[1] * g) / d[2];
+                    if (0.0..=1.0).contains(&b) {
+                        [r as f32, g as f32, crate::gen::nudge(b as f32, rng.below(7) as i64 - 3)]
+                    } else {
+                        [r as f32, g as f32, rng.unit() as f32]
+                    }
+                }
             } else {
                 [rng.unit() as f32, rng.unit() as f32, rng.unit() as f32]
             }
@@ -124,7 +140,7 @@ fn shape(n: usize, r: u64) -> (usize, usize) {
 
 fn run_xyb(ctx: &Ctx, roundtrip: bool) {
     let prop = if roundtrip { "C05" } else { "C04" };
-    let total: u64 = ctx.arg_u64("pixels").unwrap_or(if ctx.flag("lite") { 1 << 21 } else { ctx.pick(1 << 24, 1 << 32) });
+    let total: u64 = ctx.arg_u64("pixels").unwrap_or(if ctx.flag("lite") { 1 << 21 } else { ctx.pick(1 << 27, 1 << 32) });
     let distinct = Distinct::new(ctx.pick(29, 33));
     let worst = Mutex::new(Worst::<([f32; 3], usize, f32, f64)>::new());
     let per_stratum: Vec<AtomicU64> = (0..8).map(|_| AtomicU64::new(0)).collect();
@@ -155,9 +171,9 @@ fn run_xyb(ctx: &Ctx, roundtrip: bool) {
         if px.is_empty() {
             return;
         }
-        let process = |px: &[[f32; 3]], kinds: &[usize], count: bool| {
+        let process = |px: &[[f32; 3]], kinds: &[usize], count: bool, explicit: Option<(usize, usize)>| {
         let n = px.len();
-        let (w, h) = shape(n, a / chunk);
+        let (w, h) = explicit.unwrap_or_else(|| shape(n, a / chunk));
         let x = match xyb_of(px.to_vec(), w, h) {
             Ok(x) => x,
             Err(e) => {
@@ -176,6 +192,9 @@ fn run_xyb(ctx: &Ctx, roundtrip: bool) {
         if !roundtrip {
             for i in 0..n {
                 let p = px[i];
+                if !in_c04_domain(p) {
+                    continue; // a hostile companion, not a subject
+                }
                 let want = lrgb_to_xyb(px64(p));
                 let got = x.data()[i];
                 for c in 0..3 {
@@ -199,6 +218,9 @@ fn run_xyb(ctx: &Ctx, roundtrip: bool) {
             }
             for i in 0..n {
                 let p = px[i];
+                if !in_unit(p) {
+                    continue; // a hostile companion, not a subject
+                }
                 let got = back.data()[i];
                 for c in 0..3 {
                     loc.upd((got[c] as f64 - p[c] as f64).abs(), (p, c, got[c], p[c] as f64));
@@ -215,7 +237,7 @@ fn run_xyb(ctx: &Ctx, roundtrip: bool) {
         checked.fetch_add(n as u64, Relaxed);
         worst.lock().unwrap().merge(&loc);
         };
-        process(&px, &kinds, true);
+        process(&px, &kinds, true, None);
         // the same pixels in other contexts (judged by the same per-pixel rule): reversed with every pixel doubled,
         // and as many tiny images of 1..7 pixels
         let ck = a / chunk;
@@ -229,17 +251,76 @@ fn run_xyb(ctx: &Ctx, roundtrip: bool) {
                 k.push(kinds[i]);
                 k.push(kinds[i]);
             }
-            process(&v, &k, false);
+            process(&v, &k, false, None);
+            // letterboxed: whole rows of black above and between the rows of subjects, none below
+            let m = px.len().min(6000);
+            let wrow = [61usize, 64, 17][(ck / 3 % 3) as usize];
+            let (v, idx, h) = letterbox(&px[..m], wrow, [0.0; 3]);
+            let k: Vec<usize> = idx.iter().map(|i| if *i == usize::MAX { 0 } else { kinds[*i] }).collect();
+            process(&v, &k, false, Some((wrow, h)));
         } else if ck % 3 == 2 {
             let mut i = 0usize;
             let mut len = 1usize;
             while i + len <= px.len().min(2048) {
-                process(&px[i..i + len], &kinds[i..i + len], false);
+                process(&px[i..i + len], &kinds[i..i + len], false, None);
                 i += len;
                 len = len % 7 + 1;
             }
+        } else {
+            // the same pixels with hostile companions around them (NaN, +-inf, huge, negative): only the in-domain ones are judged
+            let hostile = [[f32::NAN; 3], [f32::INFINITY, 0.5, 0.5], [0.5, f32::NEG_INFINITY, 3e38], [-1.0, -1.0, -1.0], [f32::NAN, 0.0, 1.0], [1e30, 1e30, 1e30]];
+            let m = px.len().min(6000);
+            let mut v = Vec::with_capacity(m + m / 3 + 1);
+            let mut k = Vec::with_capacity(m + m / 3 + 1);
+            for i in 0..m {
+                v.push(px[i]);
+                k.push(kinds[i]);
+                if i % 3 == (ck % 3) as usize {
+                    v.push(hostile[(i / 3) % hostile.len()]);
+                    k.push(kinds[i]);
+                }
+            }
+            process(&v, &k, false, None);
         }
     });
+    // one image of more than 2^20 pixels (thorough: more than 2^24, where pixel counts stop being exact in f32),
+    // judged at its first and last pixels and at random positions
+    if !ctx.flag("lite") {
+        let n: usize = if ctx.tier == crate::Tier::Thorough { 4129 * 4129 } else { (1 << 20) + 13 };
+        let mut rng = Rng::new(ctx.seed, 0xB16_C04);
+        let big: Vec<[f32; 3]> = (0..n as u64).map(|i| gen_px(&mut rng, [2u64, 1, 6, 7, 4, 2, 7, 5][(i % 8) as usize], i).map(|c| if roundtrip { c.clamp(0.0, 1.0) } else { c.clamp(0.0, 4.0) })).collect();
+        if let Ok(x) = xyb_of(big.clone(), n, 1) {
+            let out: Vec<[f32; 3]> = if roundtrip { LinearRgb::from(x).into_data() } else { x.into_data() };
+            let mut idx: Vec<usize> = (0..64).chain(n - 64..n).collect();
+            for _ in 0..8192 {
+                idx.push(rng.below(n as u64) as usize);
+            }
+            let mut w = Worst::new();
+            if out.len() == n {
+                for i in idx {
+                    let p = big[i];
+                    let want = if roundtrip { px64(p) } else { lrgb_to_xyb(px64(p)) };
+                    for c in 0..3 {
+                        w.upd((out[i][c] as f64 - want[c]).abs(), (p, c, out[i][c], want[c]));
+                    }
+                }
+            } else {
+                w.upd(f64::NAN, ([0.0; 3], 0, 0.0, 0.0));
+            }
+            checked.fetch_add(8320, Relaxed);
+            ev::observe("big_image_pixels", n);
+            let tol = if roundtrip { TOL_C05 } else { TOL_C04 };
+            if !(w.err <= tol) {
+                if let Some((p, c, got, want)) = w.at {
+                    ev::violation(
+                        format!("{prop}|big-image"),
+                        format!("in one {n}-pixel image, pixel {p:?} component {c}: got {got:e}, want {want:e}"),
+                        J::obj().set("kind", "big-image").set("pixels", n).set("pixel", px_json(p)),
+                    );
+                }
+            }
+        }
+    }
     let w = worst.lock().unwrap();
     let tol = if roundtrip { TOL_C05 } else { TOL_C04 };
     ev::observe("worst_abs_err", w.err);
@@ -326,19 +407,23 @@ struct C9At {
 }
 
 fn c09_one<T: Pixel>(cfg: YuvConfig, colors: &[[f32; 3]], worst: &mut Worst<C9At>) -> u64 {
+    c09_shape::<T>(cfg, colors, worst, 13, None)
+}
+
+/// `cols` blocks per row (odd); `rows`: block rows (default: as many as the colours need)
+fn c09_shape<T: Pixel>(cfg: YuvConfig, colors: &[[f32; 3]], worst: &mut Worst<C9At>, cols: usize, rows: Option<usize>) -> u64 {
     let u8s = std::mem::size_of::<T>() == 1;
     let (ssx, ssy) = (cfg.subsampling_x, cfg.subsampling_y);
     // lay the colours out as blocks so that pixels are constant within each chroma block
     let bw = 1usize << ssx;
     let bh = 1usize << ssy;
-    let cols = 13usize; // blocks per row (odd)
-    let rows = ((colors.len() + cols - 1) / cols) | 1; // odd too: a 4:4:4 image then has an odd number of pixels
+    let rows = rows.unwrap_or(((colors.len() + cols - 1) / cols) | 1); // odd too: a 4:4:4 image then has an odd number of pixels
     let (w, h) = (cols * bw, rows * bh);
     let mut px = vec![[0f32; 3]; w * h];
     for y in 0..h {
         for x in 0..w {
             let bi = (y / bh) * cols + x / bw;
-            px[y * w + x] = colors[bi.min(colors.len() - 1)];
+            px[y * w + x] = colors[bi % colors.len()];
         }
     }
     let case = |what: &str| {
@@ -384,7 +469,9 @@ fn c09_one<T: Pixel>(cfg: YuvConfig, colors: &[[f32; 3]], worst: &mut Worst<C9At
     } else {
         yuv
     };
-    let x = match Xyb::try_from(&yuv) {
+    // the borrowing and the consuming conversion are two impls: use them alternately (C11 compares them bit for bit)
+    let to_xyb = if cfg.bit_depth % 2 == 0 { Xyb::try_from(&yuv) } else { Xyb::try_from(yuv.clone()) };
+    let x = match to_xyb {
         Ok(x) => x,
         Err(e) => {
             ev::violation(format!("C09|to-xyb-error|{sigbase}"), format!("supported config failed: {e:?}"), case("to_xyb"));
@@ -424,7 +511,7 @@ fn c09_one<T: Pixel>(cfg: YuvConfig, colors: &[[f32; 3]], worst: &mut Worst<C9At
                 let b = u32::cast_from(back.data()[pl].p(xx, y));
                 let e = (a as f64 - b as f64).abs() / budget;
                 let bi = ((y << sy) / bh) * cols + (xx << sx) / bw;
-                worst.upd(e, C9At { cfg, u8s, rgb: colors[bi.min(colors.len() - 1)], plane: pl, a, b });
+                worst.upd(e, C9At { cfg, u8s, rgb: colors[bi % colors.len()], plane: pl, a, b });
                 n += 1;
             }
         }
@@ -454,6 +541,7 @@ pub fn c09(ctx: &Ctx) {
     let evals = AtomicU64::new(0);
     let distinct = Distinct::new(ctx.pick(27, 30));
     let ss_used: Vec<AtomicU64> = (0..6).map(|_| AtomicU64::new(0)).collect();
+    let wide_images = AtomicU64::new(0);
     ev::par_ranges("C09", cfgs.len() as u64, 4, |_w, a, b| {
         for ci in a..b {
             let (m, t, p, full, n) = cfgs[ci as usize];
@@ -472,6 +560,21 @@ pub fn c09(ctx: &Ctx) {
                 if n == 8 {
                     k += c09_one::<u8>(cfg, &colors, &mut w);
                 }
+                evals.fetch_add(k, Relaxed);
+            }
+            // a few configs also get very wide images: more than 65,536 (chroma) columns, and rows of more than
+            // 64 KiB of f32 pixels with several chroma rows
+            let wide: Option<((u8, u8), usize, usize)> = match ci % 97 {
+                13 => Some(((0, 0), 65_551, 1)),
+                14 => Some(((1, 1), 2_731, 3)),
+                15 if !ctx.flag("lite") => Some(((1, 0), 65_551, 1)),
+                16 => Some(((0, 1), 5_471, 3)),
+                _ => None,
+            };
+            if let Some((ss, cols, rows)) = wide {
+                let cfg = cfg_full(m, t, p, full, n, ss);
+                let k = if n == 8 && ci % 2 == 0 { c09_shape::<u8>(cfg, &colors, &mut w, cols, Some(rows)) } else { c09_shape::<u16>(cfg, &colors, &mut w, cols, Some(rows)) };
+                wide_images.fetch_add(1, Relaxed);
                 evals.fetch_add(k, Relaxed);
             }
             if !(w.err <= 1.0) {
@@ -512,6 +615,7 @@ pub fn c09(ctx: &Ctx) {
     let tbl: Vec<J> = worst_by_tn.lock().unwrap().iter().map(|((t, n), e)| J::obj().set("transfer", t.as_str()).set("n", *n).set("worst_diff_over_budget", *e)).collect();
     ev::observe("worst_per_transfer_and_depth", J::Arr(tbl));
     ev::observe("configs", cfgs.len());
+    ev::observe("very_wide_images", wide_images.load(Relaxed));
     ev::observe("layout_runs", J::Arr(SUBSAMPLINGS.iter().enumerate().map(|(i, s)| J::obj().set("ss", [s.0, s.1]).set("configs", ss_used[i].load(Relaxed))).collect()));
     ev::add_evals(evals.load(Relaxed));
     ev::add_nontrivial(distinct.count());
